@@ -245,4 +245,21 @@ PROPS = {
         trusted_base=["vstat.callgraph", "exception hierarchy by class name (repo classes + builtins)"],
         assumptions=["`assert` counts as AssertionError (python -O is not used)"],
     ),
+    "C15": dict(
+        title="A loaded program's memory image equals the file's mapping",
+        explanation=(
+            "Decides structural necessary conditions of the image clause and the entry-point clause: (R-SEGIMG) every loadsegment "
+            "(ELF, PE, Mach-O) derives the image from both the file-size and the memory-size field of its segment type and pads "
+            "with an explicit zero byte; (R-LOADPC) each of the 12 OS loaders stores <bin>.entrypoints[0] into the task state, "
+            "unconditionally up to the kind of load command; (R-ENTRY) the entrypoints property of every format class returns the "
+            "attribute its constructor stores; (R-GEOM/R-TABWALK) segment tables are located and walked with the geometry the "
+            "file declares. Does NOT decide byte equality of the whole image, relocation slots, page arithmetic, instruction fetch."
+        ),
+        rules=[(R_fm.r_segimg, Q), (R_fm.r_loaderpc, Q), (R_fm.r_entry, Q), (R_fm.r_geom, Q), (R_fm.r_tabwalk, Q)],
+        level_text="partial: must-use (def-use) checks on the three loadsegment implementations and all 12 OS loaders; the loader tests check entry points of three samples and never the zero-filled tail of a segment",
+        level_note="Trusted: attribute names identify the file-size / memory-size fields (p_filesz/p_memsz, SizeOfRawData/VirtualSize, filesize/vmsize); one-level helper resolution (self.readsegment).",
+        technique="must-use / must-flow (def-use) rules over the AST of the loaders",
+        trusted_base=["field-name table SEGIMG in vstat/rules/formats.py"],
+        assumptions=[],
+    ),
 }
